@@ -960,10 +960,12 @@ fn run_pair(pr: &Pair, stop_at_first: bool) -> (PairResult, Vec<(String, String,
             }
         }
         if let Some((kind, d)) = diff {
-            // F6, and only F6: name-indexed access to a table name that BOTH copies declared after
-            // the clone; the copy's own table exists but the shared registry entry is the other's
+            // F6, and only F6: name-indexed access to a table name that the OTHER copy declared after
+            // the clone, while this copy has its own table of that name (the independent engine
+            // finds it; declared after the clone or, if the other copy popped and redeclared,
+            // before it): the shared registry entry is the other copy's, so here it reads as missing
             let f6 = match it.api_name() {
-                Some(n) => decl[0].contains(n) && decl[1].contains(n) && ox.api == "missing" && or.api != "missing",
+                Some(n) => decl[other].contains(n) && ox.api == "missing" && or.api != "missing",
                 None => false,
             };
             let key = if f6 { "F6-clone-shared-registry" } else { "C08-clone-diverges" };
@@ -974,7 +976,7 @@ fn run_pair(pr: &Pair, stop_at_first: bool) -> (PairResult, Vec<(String, String,
                 "command {i} on copy {:?} `{}` ({kind}): in the clone pair it gave {d} (second: independent engine replaying prefix + this copy's commands){}",
                 sd,
                 it.show(),
-                if f6 { format!("; the name was declared by both copies after the clone (shared ActionRegistry)") } else { String::new() }
+                if f6 { "; this copy has a table of that name and the other copy declared the same name after the clone (shared ActionRegistry)".to_string() } else { String::new() }
             );
             all.push((key.to_string(), what.clone(), i));
             if res.violation.is_none() || (!f6 && res.violation.as_ref().map(|v| v.0.starts_with("F6")).unwrap_or(false)) {
@@ -1344,7 +1346,7 @@ fn run_mpair(mp: &MPair) -> (Vec<String>, Vec<(String, String, usize)>, usize) {
         }
         if let Some((kind, d)) = compare(&ox, &or) {
             let f6 = match c {
-                MC::ApiSet(n, ..) | MC::ApiLookup(n, ..) | MC::ApiSize(n) => decl[0].contains(n) && decl[1].contains(n) && ox.api == "missing" && or.api != "missing",
+                MC::ApiSet(n, ..) | MC::ApiLookup(n, ..) | MC::ApiSize(n) => decl[other].contains(n) && ox.api == "missing" && or.api != "missing",
                 _ => false,
             };
             viols.push((
